@@ -181,11 +181,8 @@ def tab1(units, R, unit_name='cJSON.c', claim=('parse_value', 'cJSON_Duplicate_r
         names = set(comp)
         if not (names & set(claim)):
             for n in sorted(names):
-                if n not in TREE_BOUNDED:
-                    R.ob('TAB1', u.functions[n], None, 'unlisted recursive function %s' % n, False,
-                         'recursion without a depth gate and not in the tree-bounded list', key='unlisted:' + n)
-                else:
-                    R.note('TAB1: %s recursion listed as tree-bounded: %s' % (n, TREE_BOUNDED[n]))
+                R.note('TAB1: recursion through %s is not part of a claimed cycle (%s)' % (
+                    n, TREE_BOUNDED.get(n, 'walks an existing tree / list; not claimed')))
             continue
         ncl += 1
         gate_fns = set()
@@ -1110,32 +1107,28 @@ EXPECTED_FIRST_BYTES = {
 
 
 def c02_structure(units, R):
-    from ..dataflow import solve
     u = units['cJSON.c']
     fn = u.fn('parse_value')
     cfg = fn.cfg()
-    ALL = frozenset(range(256))
+    def src_ok(base):
+        # the byte at the buffer cursor: (B->content + B->offset)[0]
+        b = strip_casts(base)
+        return b.get('k') == 'bin' and b['op'] == '+' and is_mem(b['l'], 'content') and is_mem(b['r'], 'offset')
+    reach = {}
 
-    def refine(node, label, st):
-        if label[0] not in ('T', 'F'):
-            return st
-        p = cmp_parts(label[1])
-        if p is None or p[0].get('k') not in ('idx', 'un'):
-            return st
-        acc = access(p[0])
-        if acc is None or acc[1] != 0:
-            return st
-        op, c = p[1], p[2]
-        keep = {b for b in st if {'==': b == c, '!=': b != c, '<': b < c, '<=': b <= c, '>': b > c, '>=': b >= c}[op]}
-        res = frozenset(keep if label[0] == 'T' else set(st) - keep)
-        return res if res else None
-    states = solve(cfg, ALL, lambda n, s: s, refine, lambda a, b: a | b)
+    def visit(node, B, env):
+        root = node.expr
+        if root is None:
+            return
+        for c in walk(root):
+            if c.get('k') == 'call' and callee_name(c) in EXPECTED_FIRST_BYTES:
+                reach.setdefault(callee_name(c), set()).update(B)
+    _byte_explore(u, fn, lambda base: src_ok(base), visit, reset_heads=False)
     for c in fn.calls():
         cn = callee_name(c)
         if cn not in EXPECTED_FIRST_BYTES:
             continue
-        node = node_containing(cfg, c)
-        got = states.get(node.id, frozenset())
+        got = reach.get(cn, set())
         want = EXPECTED_FIRST_BYTES[cn]
         R.ob('C02S', fn, c, '%s is entered exactly for first bytes %s' % (cn, ''.join(chr(b) for b in sorted(want))), set(got) == want,
              'guard admits %s' % (''.join(chr(b) if 32 < b < 127 else '\\x%02x' % b for b in sorted(got))[:60]), key='firstbyte:' + cn)
@@ -1145,7 +1138,8 @@ def c02_structure(units, R):
     for name in ('parse_array', 'parse_object'):
         f2 = u.fn(name)
         cfg2 = f2.cfg()
-        pairs = {(expr_str(strip_casts(a['l'])), expr_str(strip_casts(_final_rhs(a)))) for a in assignments(f2) if a['op'] == '='}
+        from .common import assignment_pairs
+        pairs = {(l, r) for (l, r, _a, _via) in assignment_pairs(u, f2)}
         # chained `current_item = head = new_item`
         news = [d['n'] for d in f2.locals() if 'init' in d and strip_casts(d['init']).get('k') == 'call' and
                 callee_name(strip_casts(d['init'])) == 'cJSON_New_Item']
@@ -1162,6 +1156,25 @@ def c02_structure(units, R):
         # the list head is assigned only while it is NULL
         heads = [a for a in assignments(f2) if expr_str(strip_casts(_final_rhs(a))) == N and is_ref(a['l']) and
                  any((('%s->child' % 'item'), expr_str(strip_casts(a['l']))) == (l, r) for (l, r) in pairs)]
+        for (l_, r_, a_, via) in assignment_pairs(u, f2):
+            if via is None or r_ != N or ('item->child', l_) not in pairs:
+                continue
+            h = u.functions[callee_name(via)]
+            hcfg = h.cfg()
+            hnode = node_containing(hcfg, a_)
+            target = expr_str(strip_casts(a_['l']))
+
+            def head_null_h(nn, l, target=target):
+                if nn.kind != 'branch' or l is None:
+                    return False
+                p = strip_casts(nn.expr)
+                if p.get('k') == 'bin' and p['op'] in ('==', '!='):
+                    other = p['l'] if is_null_const(p['r']) else (p['r'] if is_null_const(p['l']) else None)
+                    if other is not None and expr_str(strip_casts(other)) == target:
+                        return (p['op'] == '==') == (l[0] == 'T')
+                return False
+            R.ob('C02S', f2, via, '%s sets the list head only for the first element' % name, guarded_by(hcfg, hnode.id, head_null_h),
+                 'inside helper %s' % h.name, key='head:' + name)
         for a in f2.nodes():
             if a.get('k') == 'bin' and a['op'] == '=' and is_ref(a['l']) and ('item->child', expr_str(strip_casts(a['l']))) in pairs \
                     and expr_str(strip_casts(_final_rhs(a))) == N:
@@ -1251,6 +1264,61 @@ def _evalb(e, b, env, u, src_ok):
     return val
 
 
+def _byte_explore(u, fn, src_ok, visit, reset_heads=True):
+    """Follow every path of fn with (set of values of the current input byte, expressions held by locals); at loop heads
+    the byte is forgotten.  visit(node, B, env) is called for every node reached."""
+    cfg = fn.cfg()
+    ALL = frozenset(range(256))
+    heads = {n.id for n in cfg.nodes if n.kind == 'nop' and n.name == 'loop-head'} if reset_heads else set()
+    seen = set()
+    work = [(cfg.entry.id, ALL, ())]
+    steps = 0
+    while work:
+        nid, B, envt = work.pop()
+        steps += 1
+        if steps > 50000:
+            raise AnalysisBroken('byte exploration of %s does not finish' % fn.name)
+        node = cfg.nodes[nid]
+        if nid in heads:
+            B, envt = ALL, ()
+        sig = (nid, B, tuple(k for k, _v in envt))
+        if sig in seen:
+            continue
+        seen.add(sig)
+        env = dict(envt)
+        visit(node, B, env)
+        if node.kind == 'decl' and 'init' in node.decl:
+            env[node.decl['d']] = node.decl['init']
+        elif node.kind == 'stmt':
+            e = node.expr
+            if e.get('k') == 'bin' and e['op'] in ASSIGN_OPS and is_ref(e['l']):
+                d = strip_casts(e['l'])['d']
+                if e['op'] == '=':
+                    env[d] = e['r']
+                else:
+                    env.pop(d, None)
+        elif node.kind == 'return':
+            continue
+        envt2 = tuple(sorted(env.items(), key=lambda kv: kv[0]))
+        for (y, label) in cfg.succ[nid]:
+            B2 = B
+            if label is not None and label[0] in ('T', 'F') and node.kind == 'branch':
+                keep = set()
+                dep = True
+                for b in B:
+                    v = _evalb(label[1], b, env, u, src_ok)
+                    if v is None:
+                        dep = False
+                        break
+                    if bool(v) == (label[0] == 'T'):
+                        keep.add(b)
+                if dep:
+                    if not keep:
+                        continue
+                    B2 = frozenset(keep)
+            work.append((y, B2, envt2))
+
+
 def tab21(units, R):
     """parse_hex4 accepts exactly the 22 hexadecimal digit bytes, each with its value: the set of byte values that do not
     reach the failure return, and what each contributes, are computed over all 256 byte values from the conditions and
@@ -1263,32 +1331,36 @@ def tab21(units, R):
 
     def src_ok(base):
         b = strip_casts(base)
-        return b.get('k') == 'ref' and b.get('d') == inp
+        if b.get('k') == 'un' and b['op'] in ('post++', 'post--'):
+            b = strip_casts(b['e'])
+        return b.get('k') == 'ref' and u.ty(b['ty'])['c'] == 'ptr' and 'char' in u.ty(b['ty'])['s']
     ALL = frozenset(range(256))
     heads = {n.id for n in cfg.nodes if n.kind == 'nop' and n.name == 'loop-head'}
     contrib = []     # (byte set, value expression, env)
     rejected = set()
-
-    class St:
-        def __init__(self, B, env):
-            self.B = B
-            self.env = env
-
-        def __eq__(self, o):
-            return self.B == o.B and sorted(self.env) == sorted(o.env)
-
-        def __ne__(self, o):
-            return not self.__eq__(o)
-
     acc_var = None
     rets = [r for r in cfg.returns() if r.expr is not None and is_ref(r.expr)]
     if rets:
         acc_var = strip_casts(rets[0].expr)['d']
-
-    def transfer(node, st):
-        if node.id in heads:
-            return St(ALL, {})
-        env = dict(st.env)
+    # path exploration: every path of the (acyclic) loop body is followed separately with the set of byte values that take
+    # it and the expressions held by the locals on it; at the loop head everything is forgotten (one byte per iteration)
+    seen = set()
+    work = [(cfg.entry.id, ALL, ())]
+    steps = 0
+    while work:
+        nid, B, envt = work.pop()
+        steps += 1
+        if steps > 20000:
+            raise AnalysisBroken('TAB21: exploration of parse_hex4 does not finish')
+        node = cfg.nodes[nid]
+        if nid in heads:
+            B, envt = ALL, ()
+        sig = (nid, B, tuple(k for k, _v in envt))
+        if sig in seen:
+            continue
+        seen.add(sig)
+        env = dict(envt)
+        envx = {k: v for k, v in env.items()}
         if node.kind == 'decl' and 'init' in node.decl:
             env[node.decl['d']] = node.decl['init']
         elif node.kind == 'stmt':
@@ -1297,39 +1369,40 @@ def tab21(units, R):
                 d = strip_casts(e['l'])['d']
                 if d == acc_var:
                     if e['op'] == '+=':
-                        contrib.append((st.B, e['r'], dict(env)))
+                        contrib.append((B, e['r'], dict(env)))
                     elif e['op'] == '=' and strip_casts(e['r']).get('k') == 'bin' and strip_casts(e['r'])['op'] in ('+', '|'):
                         r = strip_casts(e['r'])
                         for (x, y) in ((r['l'], r['r']), (r['r'], r['l'])):
-                            if is_ref(x) and strip_casts(x)['d'] == acc_var:
-                                contrib.append((st.B, y, dict(env)))
+                            mentions_acc = any(z.get('k') == 'ref' and z.get('d') == acc_var for z in walk(x))
+                            free_of_acc = not any(z.get('k') == 'ref' and z.get('d') == acc_var for z in walk(y))
+                            if mentions_acc and free_of_acc:
+                                contrib.append((B, y, dict(env)))
                 elif e['op'] == '=':
                     env[d] = e['r']
                 else:
                     env.pop(d, None)
-        elif node.kind == 'return' and node.expr is not None and const_val(node.expr) == 0:
-            rejected.update(st.B)
-        return St(st.B, env)
-
-    def refine(node, label, st):
-        if label[0] not in ('T', 'F'):
-            return st
-        keep = set()
-        for b in st.B:
-            v = _evalb(label[1], b, st.env, u, src_ok)
-            if v is None:
-                return st       # condition does not depend on the byte (loop counter)
-            if bool(v) == (label[0] == 'T'):
-                keep.add(b)
-        if not keep:
-            return None
-        return St(frozenset(keep), st.env)
-
-    def join(a, b):
-        return St(a.B | b.B, {k: v for k, v in a.env.items() if k in b.env})
-    contrib.clear()
-    rejected.clear()
-    solve(cfg, St(ALL, {}), transfer, refine, join)
+        elif node.kind == 'return':
+            if node.expr is not None and const_val(node.expr) == 0:
+                rejected.update(B)
+            continue
+        envt2 = tuple(sorted(env.items(), key=lambda kv: kv[0]))
+        for (y, label) in cfg.succ[nid]:
+            B2 = B
+            if label is not None and label[0] in ('T', 'F') and node.kind == 'branch':
+                keep = set()
+                dep = True
+                for b in B:
+                    v = _evalb(label[1], b, env, u, src_ok)
+                    if v is None:
+                        dep = False
+                        break
+                    if bool(v) == (label[0] == 'T'):
+                        keep.add(b)
+                if dep:
+                    if not keep:
+                        continue
+                    B2 = frozenset(keep)
+            work.append((y, B2, envt2))
     accepted = set(range(256)) - rejected
     want = set(b'0123456789abcdefABCDEF')
     R.ob('TAB21', fn, None, 'parse_hex4 accepts exactly the bytes 0-9 a-f A-F', accepted == want,
